@@ -16,7 +16,7 @@ import vcommon
 from vcommon import VERIF
 
 PROPS = ["Bee2V/C01/Props.lean"]
-for _f in ("PropsModes", "PropsStream", "PropsAead", "PropsWbl", "PropsFmt", "PropsLcl", "PropsSpec"):
+for _f in ("PropsModes", "PropsStream", "PropsAead", "PropsWbl", "PropsFmt", "PropsLcl", "PropsSpec", "PropsChunk"):
     if os.path.exists(os.path.join(VERIF, "lean", "Bee2V", "C01", _f + ".lean")) and _f not in os.environ.get("C01_SKIP_PROPS", "").split(","):
         PROPS.append("Bee2V/C01/%s.lean" % _f)
 
@@ -429,14 +429,54 @@ def fmt_word(rng, mod, count):
 
 # ------------------------------------------------------------------ search oracle (implementation only)
 
+def _h(a, n):
+    return H[a:a + n].hex()
+
+
+def _u16(v):
+    return b"".join(int(x).to_bytes(2, "little") for x in v).hex()
+
+
+K1, K2, IV1, IV2 = _h(128, 32), _h(160, 32), _h(192, 16), _h(208, 16)
 KAT = [  # appendix vectors of STB 34.101.31 as used in test/crypto/belt_test.c (op -> expected output)
-    ("blk E %s %s" % (H[128:160].hex(), H[0:16].hex()), "69cca1c93557c9e3d66bc3e0fa88fa6e"),
-    ("blk D %s %s" % (H[128 + 32:128 + 64].hex(), H[64:80].hex()), "0dc5300600cab840b38448e5e993f421"),
-    ("hash %s" % H[0:13].hex(), "ok abef9725d4c5a83597a367d14494cc2542f20f659ddfecc961a3ec550cba8c75"),
-    ("hash %s" % H[0:32].hex(), "ok 749e4c3653aece5e48db4761227742eb6dbe13f4a80f7beff1a9cf8d10ee7786"),
-    ("hash %s" % H[0:48].hex(), "ok 9d02ee446fb6a29fe5c982d4b13af9d3e90861bc4cef27cf306bfb0b174a154a"),
-    ("mac %s %s" % (H[128:160].hex(), H[0:13].hex()), "ok 7260da60138f96c9"),
-    ("mac %s %s" % (H[128:160].hex(), H[0:48].hex()), "ok 2dab59771b4b16d0"),
+    ("blk E %s %s" % (K1, _h(0, 16)), "69cca1c93557c9e3d66bc3e0fa88fa6e"),
+    ("blk D %s %s" % (K2, _h(64, 16)), "0dc5300600cab840b38448e5e993f421"),
+    ("wbl E %s 0 %s" % (K1, _h(0, 48)), "49a38ee108d6c742e52b774f00a6ef98b106cbd13ea4fb0680323051bc04df76e487b055c69bcf541176169f1dc9f6c8 6"),
+    ("wbl E %s 0 %s" % (K1, _h(0, 47)), "f08ef22dcaa06c81fb12721974221ca7ab82c62856fcf2f9fca006e019a28f16e5821a51f573594625dbab8f6a5c94 6"),
+    ("wbl D %s 0 %s" % (K2, _h(64, 48)), "92632ee0c21ad9e09a39343e5c07daa4889b03f2e6847eb152ec99f7a4d9f154b5ef68d8e4a39e567153de13d72254ee 0"),
+    ("wbl D %s 0 %s" % (K2, _h(64, 36)), "df3f882230baaffc92f05660321172310e3cb2182681ef43102e67175e177bd75e93e4e8 0"),
+    ("ecb E %s %s" % (K1, _h(0, 48)), "ok 69cca1c93557c9e3d66bc3e0fa88fa6e5f23102ef109710775017f73806da9dc46fb2ed2ce771f26dcb5e5d1569f9ab0"),
+    ("ecb E %s %s" % (K1, _h(0, 47)), "ok 69cca1c93557c9e3d66bc3e0fa88fa6e36f00cfed6d1ca1498c12798f4beb2075f23102ef109710775017f73806da9"),
+    ("ecb D %s %s" % (K2, _h(64, 48)), "ok 0dc5300600cab840b38448e5e993f421e55a239f2ab5c5d5fdb6e81b40938e2a54120ca3e6e19c7ad750fc3531daeab7"),
+    ("ecb D %s %s" % (K2, _h(64, 36)), "ok 0dc5300600cab840b38448e5e993f4215780a6e2b69eafbb258726d7b6718523e55a239f"),
+    ("cbc E %s %s %s" % (K1, IV1, _h(0, 48)), "ok 10116efae6ad58ee14852e11da1b8a745cf2480e8d03f1c19492e53ed3a70f60657c1ee8c0e0ae5b58388bf8a68e3309"),
+    ("cbc E %s %s %s" % (K1, IV1, _h(0, 36)), "ok 10116efae6ad58ee14852e11da1b8a746a9bbadcaf73f968f875dedc0a44f6b15cf2480e"),
+    ("cbc D %s %s %s" % (K2, IV2, _h(64, 48)), "ok 730894d6158e17cc1600185a8f411cab0471ff85c83792398d8924ebd57d03db95b97a9b7907e4b020960455e46176f8"),
+    ("cbc D %s %s %s" % (K2, IV2, _h(64, 36)), "ok 730894d6158e17cc1600185a8f411cabb6ab7af8541cf85755b8ea27239f08d2166646e4"),
+    ("cfb E %s %s %s" % (K1, IV1, _h(0, 48)), "ok c31e490a90efa374626cc99e4b7b8540a6e48685464a5a06849c9ca769a1b0ae55c2cc5939303ec832dd2fe16c8e5a1b"),
+    ("cfb D %s %s %s" % (K2, IV2, _h(64, 48)), "ok fa9d107a86f375ee65cd1db881224bd016aff814938ed39b3361abb0bf0851b652244eb06842dd4c94aa4500774e40bb"),
+    ("ctr %s %s %s" % (K1, IV1, _h(0, 48)), "ok 52c9af96ff50f64435fc43def56bd797d5b5b1ff79fb41257ab9cdf6e63e81f8f00341473eae409833622de05213773a"),
+    ("ctr %s %s %s" % (K2, IV2, _h(64, 44)), "ok df181ed008a20f43dcbbb93650dad34b389cdee5826d40e2d4bd80f49a93f5d212f6333166456f169043cc5f"),
+    ("kwp W %s %s %s" % (K1, _h(32, 16), _h(0, 32)), "ok 49a38ee108d6c742e52b774f00a6ef98b106cbd13ea4fb0680323051bc04df76e487b055c69bcf541176169f1dc9f6c8"),
+    ("dwp W %s %s %s %s" % (K1, IV1, _h(0, 16), _h(16, 32)), "ok 52c9af96ff50f64435fc43def56bd797 3b2e0aeb2b91854b"),
+    ("che W %s %s %s %s" % (K1, IV1, _h(0, 15), _h(16, 32)), "ok bf3daeaf5d18d2bcc30ea62d2e70a4 548622b844123ff7"),
+    ("hash %s" % _h(0, 13), "ok abef9725d4c5a83597a367d14494cc2542f20f659ddfecc961a3ec550cba8c75"),
+    ("hash %s" % _h(0, 32), "ok 749e4c3653aece5e48db4761227742eb6dbe13f4a80f7beff1a9cf8d10ee7786"),
+    ("hash %s" % _h(0, 48), "ok 9d02ee446fb6a29fe5c982d4b13af9d3e90861bc4cef27cf306bfb0b174a154a"),
+    ("mac %s %s" % (K1, _h(0, 13)), "ok 7260da60138f96c9"),
+    ("mac %s %s" % (K1, _h(0, 48)), "ok 2dab59771b4b16d0"),
+    ("krp %s 16 %s %s" % (K1, "01" + "00" * 11, _h(32, 16)), "ok 6bbbc2336670d31ab83daa90d52c0541"),
+    ("krp %s 32 %s %s" % (K1, "01" + "00" * 11, _h(32, 16)), "ok 76e166e6ab21256b6739397b672b879614b81cf05955fc3ab09343a745c48f77"),
+    ("hmac %s %s" % (_h(128, 29), _h(192, 32)), "ok d4828e6312b08bb83c9fa6535a4635549e411fd11c0d8289359a1130e930676b"),
+    ("bde E %s %s %s" % (K1, IV1, _h(0, 48)), "ok e9cab32d879cc50c10378eb07c10f26307257e2dbe2b854cbc9f38282d59d6a77f952001c5d1244f53210a27c216d4bb"),
+    ("bde D %s %s %s" % (K2, IV2, _h(64, 48)), "ok 7041bc226352c706d00ea8ef23cfe46afae118577d037facdc36e4ecc1f6574609f236943fb809e1bee4a1c686c13acc"),
+    ("sde E %s %s %s" % (K1, IV1, _h(0, 48)), "ok 1fcbb01852003d60b66024c508608baa2c21af1e884cf31154d3077d4643cf2249eb2f5a68e4ba019d90211a81d690d9"),
+    ("sde D %s %s %s" % (K2, IV2, _h(64, 48)), "ok e9fdf3f788657332e6c46fcf5251b8a6d43543a93e3233837db1571183a6ef4d7feb5cdf999e1a3f51a5a3381beb7fa5"),
+    ("fmt E 10 %s %s %s" % (K1, IV1, _u16(range(10))), "ok " + _u16([6, 9, 3, 4, 7, 7, 0, 3, 5, 2])),
+    ("fmt E 58 %s %s %s" % (K1, IV1, _u16(range(21))), "ok " + _u16([7, 4, 6, 21, 49, 55, 24, 23, 22, 50, 27, 39, 24, 24, 17, 32, 57, 43, 26, 5, 29])),
+    ("fmt E 65536 %s %s %s" % (K1, IV1, _u16(range(17))), "ok " + _u16([14290, 31359, 58054, 51842, 44653, 34762, 28652, 48929, 6541, 13788, 7784, 46182, 61098, 43056, 3564, 21568, 63878])),
+    ("kexp %s" % _h(128, 24), "e9dee72c8f0c0fa62ddb49f46f73964706075316ed247a374b09a17e8450bf66 e9dee72c8f0c0fa62ddb49f46f73964706075316ed247a374b09a17e8450bf66"),
+    ("krp %s 24 %s %s" % (K1, "01" + "00" * 11, _h(32, 16)), "ok 9a2532a18cbaf145398d5a95feea6c825b9c197156a00275"),
 ]
 
 
@@ -491,7 +531,13 @@ def search(ctx, exe, w, n=150, focus=None):
     def run(lines):
         out, err, rc = ctx.run_lines(exe, lines)
         if rc != 0 or len(out) != len(lines):
-            out = list(out) + ["CRASH"] * (len(lines) - len(out))
+            k = min(len(out), len(lines) - 1)
+            summ = [l for l in err.split("\n") if "ERROR" in l or "SUMMARY" in l][:2]
+            found.append(("crash:" + lines[k].split()[0], "expect\n%s\nok\n" % lines[k],
+                          "sanitizer abort / crash on valid input: %s : %s" % (lines[k][:160], " | ".join(summ)[:200])))
+            # continue after the crashing line
+            rest = run(lines[k + 1:]) if k + 1 < len(lines) else []
+            out = list(out[:k]) + ["CRASH"] + rest
         return out
 
     # 1. appendix vectors
@@ -566,6 +612,33 @@ def search(ctx, exe, w, n=150, focus=None):
         want = "ok " + "".join(e3[4 * j:4 * j + 4])
         if o != want:
             found.append(("ctr:counter", "expect\n%s\n%s\n" % (op, want), "CTR keystream is not E_K(E_K(iv)+i): %s -> %s, expected %s" % (op[:100], o[:50], want[:50])))
+    # 4b. helper arithmetic against Python integers: 128-bit increment, length blocks, GF(2^128) product, MulC
+    M = 1 << 128
+    hops, hexp = [], []
+    def le(v, n): return (v % (1 << (8 * n))).to_bytes(n, "little").hex()
+    vals = [0, M - 1, (1 << 32) - 1, (1 << 64) - 1, (1 << 96) - 1] + [rng.getrandbits(128) for _ in range(6)]
+    for v in vals:
+        hops.append("inc " + le(v, 16)); hexp.append(le(v + 1, 16))
+        hops.append("mulc " + le(v, 16)); hexp.append(le((v << 1) ^ (0x87 if v >> 127 else 0), 16))
+    for c in [1, 16, (1 << 29) - 1, 1 << 29, (1 << 32) + 5, (1 << 61) - 1, 1 << 61, (1 << 64) - 1] + [rng.getrandbits(rng.choice((20, 35, 62, 64))) for _ in range(12)]:
+        v = rng.choice(vals + [M - 8, (1 << 64) - 8, (1 << 32) - 8])
+        hops.append("abU %s %d" % (le(v, 16), c)); hexp.append(le(v + 8 * c, 16))
+        hops.append("abW %d %s %d" % (w, le(v, 8), c)); hexp.append(le((v % (1 << 64)) + 8 * c, 8))
+    def gfmul(a, b):
+        p = 0
+        for i in range(128):
+            if (b >> i) & 1:
+                p ^= a << i
+        for i in range(254, 127, -1):
+            if (p >> i) & 1:
+                p ^= (M | 0x87) << (i - 128)
+        return p
+    for _ in range(20):
+        a, b = rng.getrandbits(128), rng.getrandbits(128)
+        hops.append("pmul %s %s" % (le(a, 16), le(b, 16))); hexp.append(le(gfmul(a, b), 16))
+    for op, e, o in zip(hops, hexp, run(hops)):
+        if o != e:
+            found.append(("helper:" + op.split()[0], "kat\n%s\n%s\n" % (op, e), "%s -> %s, exact arithmetic gives %s" % (op, o, e)))
     # 5. FMT block count against exact integers
     pts = fmt_points(rng, False)[:400]
     ob = run(["fmtB %d %d" % p for p in pts])
@@ -576,26 +649,30 @@ def search(ctx, exe, w, n=150, focus=None):
     return found
 
 
-def fmt_table_sweep(ctx, exe):
-    """thorough tier: the complete table of beltFMTCalcB against exact integers (implementation only)
-    and against the model (correspondence) -- 65535 x 300 points through fmtB"""
-    bad = []
+def fmt_table_sweep(ctx, exe, with_model):
+    """thorough tier: the COMPLETE table of beltFMTCalcB (65535 x 300 points through `fmtB`): implementation
+    against exact integers (search oracle) and against the model (correspondence)"""
+    bad, mism_all = [], []
     total = 0
     for lo in range(2, 65537, 2048):
-        ops = ["fmtB %d %d" % (m, c) for m in range(lo, min(lo + 2048, 65537)) for c in range(1, 301)]
-        out, err, rc = ctx.run_lines(exe, ops)
+        hi = min(lo + 2048, 65537)
+        ops = ["fmtB %d %d" % (m, c) for m in range(lo, hi) for c in range(1, 301)]
+        if with_model:
+            mism, out, _ = ctx.diff_run(exe, ops, "fmt_table")
+            mism_all += mism[:3]
+        else:
+            out, err, rc = ctx.run_lines(exe, ops)
         total += len(ops)
-        # exact values incrementally: b(mod,count) from the bit length of mod^count
         i = 0
-        for m in range(lo, min(lo + 2048, 65537)):
+        for m in range(lo, hi):
             p = 1
             for c in range(1, 301):
                 p *= m
                 e = ((p - 1).bit_length() + 63) // 64
-                if out[i] != str(e):
+                if i < len(out) and out[i] != str(e):
                     bad.append((m, c, out[i], e))
                 i += 1
-    return total, bad
+    return total, bad, mism_all
 
 
 # ------------------------------------------------------------------ check
@@ -614,16 +691,23 @@ def run(ctx):
     for cfg, w in (("asan", 64), ("w32", 32)):
         exe = ctx.cc("harness/c01.c", cfg)
         exes[cfg] = (exe, w)
-        ops = corpus_lines(w) + gen_ops(ctx, exe, w, ctx.tier)[0]
+        ops = [k for k, _ in KAT] + corpus_lines(w) + gen_ops(ctx, exe, w, ctx.tier)[0]
         if not have_driver:
             break
         try:
             mism, c_out, l_out = ctx.diff_run(exe, ops, cfg)
         except RuntimeError as e:
             ctx.notes.append(str(e))
-            mism, c_out = [(-1, "driver", "", str(e))], []
+            mism, c_out, l_out = [(-1, "driver", "", str(e))], [], []
         for m in mism:
             mism_all.append((cfg, w) + tuple(m))
+        # the standard's appendix vectors on the MODEL (tests of the model/spec, labelled as tests)
+        if cfg == "asan" and mism != [(-1, "driver", "", "")] and len(l_out) >= len(KAT):
+            badk = [(op, exp, l_out[i]) for i, (op, exp) in enumerate(KAT) if l_out[i] != exp]
+            cov["spec_vectors_checked"] = len(KAT)
+            cov["spec_vectors_failed"] = len(badk)
+            for op, exp, got in badk[:3]:
+                ctx.notes.append("model does not reproduce appendix vector: %s -> %s (expected %s)" % (op[:80], got[:60], exp[:60]))
         fam = {}
         for o in ops:
             f = o.split()[0]
@@ -632,7 +716,7 @@ def run(ctx):
         cov["distinct_outputs_" + cfg] = len(set(c_out))
         cov["rejected_" + cfg] = sum(1 for o in c_out if o.startswith("bad_") or o.startswith("not_impl"))
         if cfg == "asan":
-            ctx.samples += [{"op": ops[i][:200], "impl": c_out[i][:120]} for i in range(len(ops)) if ops[i].split()[0] in ("cbc", "kwp", "fmt", "ctrS")][:6]
+            ctx.samples += [{"op": ops[i][:200], "impl": c_out[i][:120]} for i in range(min(len(ops), len(c_out))) if ops[i].split()[0] in ("cbc", "kwp", "fmt", "ctrS")][:6]
     ctx.cov.update(cov)
     ctx.cov["correspondence_disagreements"] = len(mism_all)
     # search oracle: always a small run; focused when something is off
@@ -642,8 +726,11 @@ def run(ctx):
         focus = mism_all[0][3].split()[0].rstrip("S").lower() if mism_all[0][2] >= 0 else None
     found = search(ctx, exe, w, n=400 if (mism_all or not proof_ok) else 120, focus=focus)
     if ctx.tier == "thorough":
-        total, bad = fmt_table_sweep(ctx, exe)
+        total, bad, mm = fmt_table_sweep(ctx, exe, have_driver)
         ctx.cov["fmt_table_points"] = total
+        ctx.cov["exhaustive_fmt_table"] = True
+        for m in mm:
+            mism_all.append(("asan", 64) + tuple(m))
         for m, c, got, e in bad[:5]:
             found.append(("fmt:blockcount", "expect\nfmtB %d %d\n%d\n" % (m, c, e), "beltFMTCalcB(%d,%d) = %s, exact %d" % (m, c, got, e)))
     ctx.samples.append({"theorem": "Bee2V.C01.blockDecr_blockEncr", "statement": "∀ key blk, blk.length = 16 → blockDecr key (blockEncr key blk) = blk"})
